@@ -77,13 +77,14 @@ var ethUsers = []string{"xd", "e1", "e2", "ef0", "ef1", "ef2", "ef3", "ef4", "ef
 var poor = map[string]string{"p0": "", "p1": "1", "p2": "20999", "p3": "21000", "p4": "21001", "p5": "230000", "p6": "209999"}
 
 type runner struct {
-	ethContract *types.Address // the contract created by the last eth "create" transaction of the plan
-	xvmContract *types.Address // the WASM contract deployed by the last successful xvmdeploy transaction
-	a, b        *core.Node
-	pair        *lockstep.Pair
-	plan        *Plan
-	out         *os.File
-	seq         int
+	ethContract  *types.Address // the contract created by the last eth "create" transaction of the plan
+	killContract *types.Address // the self-destructing / logging contract
+	xvmContract  *types.Address // the WASM contract deployed by the last successful xvmdeploy transaction
+	a, b         *core.Node
+	pair         *lockstep.Pair
+	plan         *Plan
+	out          *os.File
+	seq          int
 }
 
 func (r *runner) emit(m map[string]interface{}) {
@@ -197,10 +198,18 @@ func (r *runner) build(n *core.Node, t Tx) pb.Transaction {
 			if t.Pay == "store" {
 				data = core.StoreContractInit
 			}
+			if t.Pay == "kill" {
+				data = core.KillContractInit
+			}
 		case "contract":
 			to = r.ethContract
 			if to == nil {
 				to = n.Account("nocontract").Addr
+			}
+		case "killcontract":
+			to = r.killContract
+			if to == nil {
+				to = n.Account("nocontract2").Addr
 			}
 		default:
 			to = r.addr(n, t.To, from)
@@ -211,7 +220,12 @@ func (r *runner) build(n *core.Node, t Tx) pb.Transaction {
 		}
 		nonce := n.NextNonce(from.Addr)
 		if t.To == "create" {
-			r.ethContract = types.NewAddress(ethcrypto.CreateAddress(common.BytesToAddress(from.Addr.Bytes()), nonce).Bytes())
+			a := types.NewAddress(ethcrypto.CreateAddress(common.BytesToAddress(from.Addr.Bytes()), nonce).Bytes())
+			if t.Pay == "kill" {
+				r.killContract = a
+			} else {
+				r.ethContract = a
+			}
 		}
 		return n.EthTxNonce(from, to, val, t.Gas, 1, data, uint64(int(nonce)+t.NonceOff))
 	default: // raw
@@ -518,6 +532,17 @@ func genEth(rng *rand.Rand, st *ethState) Tx {
 		if f := fresh(); f != "" {
 			return Tx{K: "eth", From: f, To: "contract", Pay: word(0x02), Amt: []string{"0", "7"}[rng.Intn(2)], Gas: 22000, Cls: "eth-call-outofgas"}
 		}
+	case c < 10 && rng.Intn(2) == 0: // a contract that logs, and self-destructs in favour of its caller (with the value it was sent before)
+		if !st.kill {
+			st.kill = true
+			return Tx{K: "eth", From: ok, To: "create", Pay: "kill", Amt: []string{"0", "9"}[rng.Intn(2)], Gas: 200000, Cls: "eth-create-kill"}
+		}
+		first := []byte{0x01, 0x01, 0xaa}[rng.Intn(3)]
+		cls := "eth-call-log"
+		if first == 0xaa {
+			cls = "eth-call-selfdestruct"
+		}
+		return Tx{K: "eth", From: ok, To: "killcontract", Pay: word(first), Amt: []string{"0", "4"}[rng.Intn(2)], Gas: 100000, Cls: cls}
 	case c < 10: // rejected after the gas was bought: gas limit below the intrinsic gas
 		return Tx{K: "eth", From: ok, To: "u2", Amt: "1", Gas: 20000, Cls: "eth-intrinsic-gas"}
 	case c < 11: // rejected after the gas was bought: the value is no longer covered
@@ -531,6 +556,7 @@ func genEth(rng *rand.Rand, st *ethState) Tx {
 }
 
 type ethState struct {
+	kill    bool
 	created bool
 	nfail   int
 }
